@@ -123,7 +123,9 @@ func (cj *CookieJar) Set(uri *fasthttp.URI, cookies ...*fasthttp.Cookie) {
 // CookieJar stores copies of the provided cookies, so they may be safely released after use.
 func (cj *CookieJar) SetByHost(host []byte, cookies ...*fasthttp.Cookie) {
 	host = hostWithoutPort(host)
-	hostStr := utils.UnsafeString(host)
+	// The key is always a copy: assigning to an existing map entry replaces its key as well, and host
+	// usually aliases the buffer of a pooled request or URI that is re-used for other hosts later.
+	hostStr := string(host)
 
 	cj.mu.Lock()
 	defer cj.mu.Unlock()
@@ -132,11 +134,7 @@ func (cj *CookieJar) SetByHost(host []byte, cookies ...*fasthttp.Cookie) {
 		cj.hostCookies = make(map[string][]*fasthttp.Cookie)
 	}
 
-	hostCookies, ok := cj.hostCookies[hostStr]
-	if !ok {
-		// If the key does not exist in the map, make a copy to avoid unsafe usage.
-		hostStr = string(host)
-	}
+	hostCookies := cj.hostCookies[hostStr]
 
 	for _, cookie := range cookies {
 		existing := searchCookieByKeyAndPath(cookie.Key(), cookie.Path(), hostCookies)
@@ -184,7 +182,8 @@ func (cj *CookieJar) dumpCookiesToReq(req *fasthttp.Request) {
 // parseCookiesFromResp parses the cookies from the response and stores them for the specified host and path.
 func (cj *CookieJar) parseCookiesFromResp(host, path []byte, resp *fasthttp.Response) {
 	host = hostWithoutPort(host)
-	hostStr := utils.UnsafeString(host)
+	// see SetByHost: the key must never alias the request
+	hostStr := string(host)
 
 	cj.mu.Lock()
 	defer cj.mu.Unlock()
@@ -193,11 +192,7 @@ func (cj *CookieJar) parseCookiesFromResp(host, path []byte, resp *fasthttp.Resp
 		cj.hostCookies = make(map[string][]*fasthttp.Cookie)
 	}
 
-	cookies, ok := cj.hostCookies[hostStr]
-	if !ok {
-		// If the key does not exist in the map, make a copy to avoid unsafe usage.
-		hostStr = string(host)
-	}
+	cookies := cj.hostCookies[hostStr]
 
 	now := time.Now()
 	resp.Header.VisitAllCookie(func(key, value []byte) {
